@@ -11,7 +11,8 @@ EXPLANATION = (
     "branch must be left whenever |val|*2^n_frac can reach 2^63 (the test must be on the scaled value with the int64 capacity); R4 the value type handed to the pre-scale cast never turns "
     "Python ints into float64. Today's tree has 8 genuine violations of R1-R3 (listed in known_findings.json with failing inputs); any other node or kernel is still reported."
     " Added after the third round of seeded changes: R5 the machine carrier is int64/uint64; R6 the exact integer route is not left for any reason other than method='repr', scaling or n_frac None; operators pass op_method (C08.R4); _init_size relation for n_int == 0 (C06.R1); constructor state (C20.R2)."
-    ' Added after the fourth round of seeded changes: the store pipeline has nothing (no clamp in value units) between the input and the scaling (C01.R2); C20.R8 objects carry only the documented attributes and no function writes module-level containers (no caches / memos that go stale) (a memo of alignment factors keyed by the shift alone returns an unpromoted factor).')
+    ' Added after the fourth round of seeded changes: the store pipeline has nothing (no clamp in value units) between the input and the scaling (C01.R2); C20.R8 objects carry only the documented attributes and no function writes module-level containers (no caches / memos that go stale) (a memo of alignment factors keyed by the shift alone returns an unpromoted factor).'
+    ' Added after the fifth round of seeded changes: resize re-stores after every size write, so a widened word moves to the Python-int carrier (C10.R2); C20.R8 also forbids mutable default arguments and private attributes hung on operands (x._cache, x.__dict__[...]) (a cached Python-int copy of the codes goes stale after indexed stores).')
 ASSUMPTIONS = ["NumPy >= 2 promotion: int64 (+) uint64 -> float64; array (+) Python int keeps the array dtype; object arrays hold exact Python ints",
                "optimal sizing (C07.R1) gives n_frac = max(x.n_frac, y.n_frac) for +,- and x.n_frac + y.n_frac for *"]
 TRUSTED = ["CPython ast", "fxlint ordering procedure", "NumPy promotion lemma"]
